@@ -194,7 +194,24 @@ def _closing_case(seed):
                            stdout=subprocess.PIPE, stderr=subprocess.PIPE, timeout=300, env=dict(os.environ))
         last = [l for l in p.stdout.decode("utf-8", "replace").split("\n") if l.startswith("{")]
         if p.returncode != 0 or not last:
-            out["harness_error"] = "closing-window scenario failed to run: " + p.stderr.decode("utf-8", "replace")[-1200:]
+            err = p.stderr.decode("utf-8", "replace") + p.stdout.decode("utf-8", "replace")
+            import re as _re
+            m = _re.search(r'File "[^"]*wormhole_mailbox_server/(server|server_websocket|server_tap|database)\.py", line \d+, in (\w+)', err)
+            if m and "Traceback" in err:
+                # the scenario sends only well-formed commands: an exception raised inside the server's own code is the
+                # server failing internally (C17) in front of real WebSocket clients, not a problem of the driver
+                tail = err[err.rfind("Traceback", 0, err.find(m.group(0)) + 1):][:1500]
+                d = {"meta": "closing-window", "cfg": out["cfg"], "variant_cfg": out["cfg"], "seed": seed,
+                     "what": "a handler failed internally over real WebSocket connections (in %s.py:%s) and the scenario could not "
+                             "complete" % (m.group(1), m.group(2)),
+                     "base_events": [], "variant_events": [], "first_difference": {"server_traceback": tail},
+                     "recipe": "harness/loopback.py --closing %d : real loopback WebSocket clients (the repository's test/ws_client) bind "
+                               "to one app (several connections per side), open mailbox mb1, some start the closing handshake while "
+                               "another adds; every command is well-formed" % seed}
+                out["meta"]["C17"] = d
+                out["nontrivial"]["C17"] = 1
+                return out
+            out["harness_error"] = "closing-window scenario failed to run: " + err[-1200:]
             return out
         r = json.loads(last[-1])
         out["n_events"] = r["adds"] + r["closers"]
